@@ -14,6 +14,16 @@ CLAIMED = {
   "text": "Decides that a circuit-open skip returns an error the retry loop accepts as 'next candidate', that every attempt-to-attempt cycle removes the tried endpoint from the loop-carried list and (unless it is a skip) marks it offline through DiscoveryService on all paths, that the connection-failure branches of the error wrapper stay acceptable to the retry predicate, and that engines hand the loop exactly the caller's candidate list and dispatch to the endpoint Select returned. It does not decide which Go error a socket fault produces.",
   "note": "Trusted: errors.Is/As and fmt.Errorf %w semantics; pattern table of the retry predicate read from its package-level literal. Defect F4 (circuit-open not retried) was fixed in /repo commit f9154fa.",
  },
+ "C10": {
+  "technique": "static analysis: reachability from mutation sites to error returns (validate-before-mutate), lockset by dominance, key-shape check of memo tables, dominance/derivation check of discovery registration",
+  "text": "Decides that no registry update operation can return an error after it started mutating attribution state, that the attribution maps / unified catalogue / filter memo are only touched under their mutex, that string-keyed memo tables in the filter and registry packages have injective keys, and that a failed listing fetch reaches no registry mutator while a successful one registers exactly the fetched (filtered) listing. It does not decide the catalogue-equals-last-listing iff across the asynchronous unification.",
+  "note": "Trusted: xsync.Map method names classify mutation; closures passed to LoadOrCompute/Range run synchronously. Defects F8 (mutate before validate) and F9 (non-injective memo key) were fixed in /repo commits ec9b084 and 40ad7d5.",
+ },
+ "C20": {
+  "technique": "static analysis: SSA instruction scan for panic-capable operations with field/parameter taint from decoded numbers, source-to-sink check for unbounded body reads, sibling cross-check of the listing parsers, producer table for metrics fields",
+  "text": "Decides, for every function that consumes backend-produced bytes, that type assertions are comma-ok, there is no explicit panic, no integer division by an unguarded non-constant, and no index computed from a decoded number without a bounds comparison; that listing/health response bodies are size-limited before buffering; that all nine listing parsers skip nameless entries (guard on the very value stored as Name) and answer empty input alike; and that metrics fields only receive SafeInt32/SafeFloat32 results. It does not decide nil dereferences or hangs.",
+  "note": "Trusted: third-party decoders (jsoniter, gjson, expr, encoding/json) do not panic; consumer scope is defined by package (listed in evidence). Catalogue consistency after a rejected listing is C10-R1/R5.",
+ },
 }
 _PENDING = "check not built yet in this session; see DESIGN.md §5 for the planned static rules"
 NOT_APPLICABLE = {f"C{i:02d}": _PENDING for i in range(1, 21)}
